@@ -153,6 +153,15 @@ def expected_mult(lat, case):
     return best
 
 
+def mult_on_threshold(lat, case):
+    """the largest edge is within rounding of a power of 1000: the library decides from pmax - pmin as computed in
+    floating point, either neighbouring prefix is right (thresholds are not probed, DESIGN section 3)"""
+    if case["mult"] is not None:
+        return False
+    m = max(float(e) for e in lat.edges)
+    return any(abs(m - p) <= 1e-9 * p for p in PREFIX)
+
+
 def check_plot(case):
     import matplotlib
 
@@ -174,7 +183,7 @@ def check_plot(case):
     if case["mult"] is not None:
         kw["multiplier"] = case["mult"]
     mult = expected_mult(lat, case)
-    if mult is None or mult not in PREFIX:
+    if mult is None or mult not in PREFIX or mult_on_threshold(lat, case):
         raise Reject()
     aux, opts = (None, None)
     if case["aux"] != "none":
